@@ -49,7 +49,7 @@ INSPECT = ("str", "repr", "identity", "length", "payload", "msgmode", "serialize
 
 def floors(tier):
     return {"parse:len!=conforming": 5000, "parse:accepted": 3000, "parse:rejected": 2000,
-            "stream": 2500, "socket": 400, "parse:prefix": 5000, "stream:qe=2": 500, "stream:has-rejected": 500, "bytes": 500}
+            "stream": 2500, "stream:pipe-like": 800, "socket": 400, "parse:prefix": 5000, "stream:qe=2": 500, "stream:has-rejected": 500, "bytes": 500}
 
 
 def plan(tier, seed):
@@ -105,10 +105,10 @@ def judge_parse(frame, mode, validate, bf):
     return "accepted", viol
 
 
-def judge_stream(data, opts):
+def judge_stream(data, opts, pipe=False):
     import logging
 
-    ts = S.TrackingStream(data)
+    ts = S.pipe_stream(data) if pipe else S.TrackingStream(data)
     errs = []
     handler = errs.append if (opts.get("quitonerror") == 1 and opts.get("handler", True)) else None
     logging.disable(logging.CRITICAL)
@@ -210,8 +210,8 @@ def check(case) -> core.Out:
     if k == "stream":
         data = bytes(case["data"])
         opts = dict(case["opts"])
-        viol = judge_stream(data, opts)
-        classes = ["stream", f"stream:qe={opts.get('quitonerror')}"]
+        viol = judge_stream(data, opts, pipe=bool(case.get("pipe")))
+        classes = ["stream", f"stream:qe={opts.get('quitonerror')}"] + (["stream:pipe-like"] if case.get("pipe") else [])
         if case.get("has_rejected"):
             classes.append("stream:has-rejected")
         out = core.Out(viol=viol, classes=classes, dig=core.digest((data, sorted(opts.items()))))
@@ -276,9 +276,15 @@ def run_shard(spec, ctx, acc):
             items, opts = t
             rej = any(i["p"] == "frag" or i["tag"] in ("badck", "badcrc", "empty", "tiny", "odd", "mutfield")
                       for i in items)
-            return {"kind": "stream", "data": streams.stream_bytes(items), "opts": opts, "has_rejected": rej}
+            data = streams.stream_bytes(items)
+            cut = opts.pop("_cut", None)
+            if cut is not None and data:
+                data = data[: cut % (len(data) + 1)]  # the source ends mid-frame
+            return {"kind": "stream", "data": data, "opts": opts, "has_rejected": rej, "pipe": opts.pop("_pipe", False)}
 
-        strat = st.tuples(st.one_of(streams.garbage_streams(), streams.clean_streams(1, 5)), SOPTS).map(mk)
+        sopts2 = st.tuples(SOPTS, st.booleans(), st.one_of(st.none(), st.integers(0, 10 ** 6))).map(
+            lambda t: dict(t[0], _pipe=t[1], _cut=t[2]))
+        strat = st.tuples(st.one_of(streams.garbage_streams(), streams.clean_streams(1, 5)), sopts2).map(mk)
         core.hyp_search(acc, strat, check, seed=core.derive(ctx["seed"], PROP, "s", spec["part"]),
                         max_examples=350 if tier == "quick" else 9000, known=known, rounds=4)
         return
